@@ -522,7 +522,7 @@ func runCrashTasks(c *explore.Ctx, pool *explore.Pool, id string, tasks []crashT
 			t := tasks[start+i]
 			var r crashResult
 			if err != nil {
-				r.Viol = []string{"worker crashed or timed out: " + err.Error()}
+				r.Viol = explore.CrashViol(err)
 			} else {
 				json.Unmarshal(b, &r)
 			}
